@@ -1022,8 +1022,17 @@ impl CodegenContext {
                 ..
             } => {
                 if let Some(loop_count) = self.evaluate_expression_as_i64(expr, true)? {
+                    // If the body defines symbols, every iteration needs a scope of its own, since the symbols would be
+                    // redefined by the next iteration otherwise. (When nothing is defined all iterations can share a scope,
+                    // which is a lot cheaper for loops with many iterations.)
+                    let scope_per_iteration = defines_symbols(&block.inner);
                     for index in 0..loop_count {
-                        self.with_scope(loop_scope, Some(block), |s| {
+                        let iteration_scope = if scope_per_iteration {
+                            Identifier::new(format!("{}_{}", loop_scope.as_str(), index))
+                        } else {
+                            loop_scope.as_ref().clone()
+                        };
+                        self.with_scope(&iteration_scope, Some(block), |s| {
                             s.add_symbol(
                                 "index",
                                 s.symbol(expr.span, index, SymbolType::Constant),
@@ -1528,6 +1537,30 @@ fn verif_pass_digest(
         .hash(&mut h);
     }
     h.finish()
+}
+
+/// Do any of these tokens (or the blocks they contain) define a symbol in the scope they are emitted in?
+fn defines_symbols(tokens: &[Token]) -> bool {
+    tokens.iter().any(|token| match token {
+        Token::Label { .. }
+        | Token::VariableDefinition { .. }
+        | Token::MacroDefinition { .. }
+        | Token::Import { .. }
+        | Token::Test { .. } => true,
+        Token::If { if_, else_, .. } => {
+            defines_symbols(&if_.inner)
+                || else_
+                    .as_ref()
+                    .map(|e| defines_symbols(&e.inner))
+                    .unwrap_or_default()
+        }
+        Token::Segment {
+            block: Some(block), ..
+        } => defines_symbols(&block.inner),
+        // Braces and nested loops are scopes of their own, but those scopes live inside the current one
+        Token::Braces { block, .. } | Token::Loop { block, .. } => defines_symbols(&block.inner),
+        _ => false,
+    })
 }
 
 pub fn codegen(
